@@ -376,6 +376,8 @@ def scalar_certificate(case, w_full, strategy="subdiff", impl_pen=None, eta_buf=
             if case["solver"]["name"] == "ProxNewton":
                 if isinstance(loss, R.Cox):     # documented diagonal upper bound of the Cox Hessian
                     hdiag = r + y[:, 1] / len(y)
+                elif isinstance(loss, R.SqrtQuadratic):   # documented bound 1 / ||y - Xw||
+                    hdiag = np.full(len(y), 1. / np.linalg.norm(y - eta))
                 else:
                     hdiag = loss.hess(y, eta)
                 lips = (hdiag[:, None] * X ** 2).sum(0)
